@@ -234,8 +234,11 @@ def write_gmx_topology(system,
         {molecules}
     """
     )
+    # A moltype can appear in several groups; its ITP is included only once,
+    # at its first appearance.
     include_string = include_string + "\n".join(
-        '#include "{}.itp"'.format(molecule_type) for molecule_type, _ in moltype_count
+        '#include "{}.itp"'.format(molecule_type)
+        for molecule_type in dict.fromkeys(mtype for mtype, _ in moltype_count)
     )
     molecule_string = "\n".join(
         "{mtype:<{length}}    {num}".format(
